@@ -300,6 +300,8 @@ def run_task(task, tr):
 
     if task[0] == 'device':
         return device_task(task, tr)
+    if task[0] == 'history':
+        return history_task(task, tr)
     _, topology, n, kind, batched = task
     cls = tht.GeneralNodeHeightTransform if kind == 'ratio' else tht.DifferenceNodeHeightTransform
     tr.fn(cls._call, cls._inverse, tm.TimeTreeModel.branch_lengths, tm.ReparameterizedTimeTreeModel.update_node_heights,
@@ -407,6 +409,435 @@ def replay_device(topology, n, kind, move, vals):
     return False, 'agree'
 
 
+# ------------------------------------------------------------------ update histories
+# The clauses "every tip sits at its sampling time / every branch length equals parent height minus child
+# height / heights follow the parameterisation" are claims about what the model RETURNS, and the model caches
+# node heights, branch lengths and the value of __call__ behind three flags.  A history is a sequence of reads
+# (branch_lengths(), node_heights, model()) and writes (every public route by which ratios / root height /
+# shifts / internal heights are replaced, with or without a change of the sample shape).  Every write stores
+# FRESH symbols, every read is compared on the spot with the independent recursion evaluated on the symbols
+# that are in force at that moment, for all sampling times and all parameter values of all epochs.  The
+# structure of the history is enumerated (all sequences up to the bound), its values are symbolic.
+H_READS = {'ratio': ('bl', 'nh', 'call'), 'shift': ('bl', 'nh', 'call'), 'heights': ('bl', 'nh')}
+# a trailing '*' = the write also switches the sample shape ([] <-> [2]); such a write replaces every part
+H_WRITES = {'ratio': ('ratios', 'root', 'both', 'cat', 'both*', 'cat*'),
+            'shift': ('shifts', 'shifts*'),
+            'heights': ('heights', 'heights*')}
+H_PARTS = {'ratio': ('r', 'root'), 'shift': ('x',), 'heights': ('y',)}
+H_WRITTEN = {'ratios': ('r',), 'root': ('root',), 'both': ('r', 'root'), 'cat': ('r', 'root'),
+             'shifts': ('x',), 'heights': ('y',)}
+H_READ_NAME = {'bl': 'branch_lengths', 'nh': 'node_heights', 'call': 'call'}
+
+
+def h_width(part, n):
+    return {'r': n - 2, 'root': 1, 'x': n - 1, 'y': n - 1}[part]
+
+
+def h_names(part, n, e, b):
+    if part == 'root':
+        return [f'root{e}_{b}']
+    return [f'{part}{e}_{b}_{j}' for j in range(h_width(part, n))]
+
+
+def h_histories(kind, pattern, toggles=True):
+    """all histories with the given read/write skeleton, e.g. 'RWR' (toggles=False: without the shape-changing writes)"""
+    import itertools
+
+    writes = [w for w in H_WRITES[kind] if toggles or not w.endswith('*')]
+    return list(itertools.product(*[(H_READS[kind] if c == 'R' else writes) for c in pattern]))
+
+
+def h_patterns(length):
+    """skeletons of exactly `length` operations that end in a read (every shorter history that ends in a read
+    is a prefix of one of them, and every read of a history is checked, not only the last one)"""
+    import itertools
+
+    return [''.join(p) + 'R' for p in itertools.product('RW', repeat=length - 1)]
+
+
+def h_build(topology, n, kind):
+    if kind == 'heights':
+        js = cm.time_tree_json(topology, n)
+        js['taxa'] = cm.taxa_json(n)
+        return cm.build(js)
+    return build_model(topology, n, kind)
+
+
+def h_execute(topology, n, kind, hist, S, value, on_read):
+    """Run one history on the REAL model.  S: sampling-time tensor; value(part, e, batched) -> tensor that a write
+    stores; on_read(k, op, returned value, state) with state = (batched, {part: epoch in force}).
+    The same driver serves the symbolic run (SymTensors) and the concrete replay (plain tensors)."""
+    tree, dic = h_build(topology, n, kind)
+    tree.sampling_times = S
+    if hasattr(getattr(tree, 'transform', None), 'update_bounds'):
+        tree.transform.update_bounds()
+    batched = False
+    cur = {}
+    epoch = 0
+
+    def store(op):
+        base = op.rstrip('*')
+        parts = H_PARTS[kind] if op.endswith('*') or base == 'init' else H_WRITTEN[base]
+        vals = {p: value(p, epoch, batched) for p in parts}
+        if kind == 'ratio' and base == 'cat':
+            # the route from_json(keep_branch_lengths) uses: the setter of the concatenated parameter
+            tree._internal_heights.tensor = torch.cat((vals['r'], vals['root']), -1)
+        else:
+            for p in parts:
+                dic[{'r': 'tree.ratios', 'root': 'tree.root_height', 'x': 'tree.shifts', 'y': 'tree.heights'}[p]].tensor = vals[p]
+        for p in parts:
+            cur[p] = epoch
+
+    store('init')
+    for k, op in enumerate(hist):
+        if op in H_READ_NAME:
+            if op == 'bl':
+                got = tree.branch_lengths()
+            elif op == 'nh':
+                got = tree.node_heights
+            else:
+                got = tree()
+            on_read(k, op, got, (batched, dict(cur)))
+        else:
+            epoch += 1
+            if op.endswith('*'):
+                batched = not batched
+            store(op)
+
+
+def h_variables(n, kind, pattern, toggles=True):
+    """name -> generic witness for every symbol a history with this skeleton can store"""
+    W = {f's{i}': 0.3 * i for i in range(n)}
+    nw = pattern.count('W')
+    for e in range(nw + 1):
+        for b in range(2 if (nw and toggles) else 1):
+            off = 0.07 * e + 0.03 * b
+            for p in H_PARTS[kind]:
+                for j, name in enumerate(h_names(p, n, e, b)):
+                    W[name] = {'r': 0.3 + 0.1 * j + off, 'root': 5.0 + 10 * off, 'x': 0.7 + 0.2 * j + off,
+                               'y': 2.0 + j + off}[p]
+    return W
+
+
+def h_domain(n, kind, parent):
+    def domain(d, V):
+        cs = [d.le(0, V[f's{i}']) for i in range(n)]
+        for name in V:
+            if name.startswith('root'):
+                cs += [d.lt(V[f's{i}'], V[name]) for i in range(n)]
+            elif name.startswith('r'):
+                cs += [d.lt(0, V[name]), d.lt(V[name], 1)]
+            elif name.startswith('x'):
+                cs.append(d.lt(0, V[name]))
+            elif name.startswith('y') and name.endswith('_0'):
+                # plain TimeTreeModel: every stored vector of internal heights is a valid one (parent above child)
+                e, b = name[1:].split('_')[:2]
+                hy = {i: V[f's{i}'] for i in range(n)}
+                hy.update({n + j: V[x] for j, x in enumerate(h_names('y', n, e, b))})
+                cs += [d.lt(hy[c], hy[p]) for c, p in parent.items()]
+        return cs
+
+    return domain
+
+
+def h_oracle(d, n, root, children, kind, S, row, log=True):
+    """independent recursion for one sample: node -> height node, and log|det J| of the parameterisation"""
+    bound = {i: S[i] for i in range(n)}
+    for p in sorted(children):
+        bound[p] = dmax(d, bound[children[p][0]], bound[children[p][1]])
+    oh = {i: S[i] for i in range(n)}
+    jac = d.const(0.0)
+    if kind == 'ratio':
+        oh[root] = row['root'][0]
+        for p in sorted(children, reverse=True):  # parents before children
+            for c in children[p]:
+                if c in children:
+                    oh[c] = d.add(bound[c], d.mul(row['r'][c - n], d.sub(oh[p], bound[c])))
+                    if log:
+                        jac = d.add(jac, d.log(d.sub(oh[p], bound[c])))
+    elif kind == 'shift':
+        for p in sorted(children):
+            oh[p] = d.add(dmax(d, oh[children[p][0]], oh[children[p][1]]), row['x'][p - n])
+    else:
+        for p in sorted(children):
+            oh[p] = row['y'][p - n]
+    return oh, jac
+
+
+def h_oracle_float(n, root, children, kind, S, row):
+    import math as _m
+
+    bound = {i: S[i] for i in range(n)}
+    for p in sorted(children):
+        bound[p] = max(bound[children[p][0]], bound[children[p][1]])
+    oh = {i: S[i] for i in range(n)}
+    jac = 0.0
+    if kind == 'ratio':
+        oh[root] = row['root'][0]
+        for p in sorted(children, reverse=True):
+            for c in children[p]:
+                if c in children:
+                    oh[c] = bound[c] + row['r'][c - n] * (oh[p] - bound[c])
+                    jac += _m.log(oh[p] - bound[c]) if oh[p] - bound[c] > 0 else float('nan')
+    elif kind == 'shift':
+        for p in sorted(children):
+            oh[p] = max(oh[children[p][0]], oh[children[p][1]]) + row['x'][p - n]
+    else:
+        for p in sorted(children):
+            oh[p] = row['y'][p - n]
+    return oh, jac
+
+
+def h_body(topology, n, kind, pattern, toggles, tr, label):
+    root, children = index_tree(topology, n)
+    parent = {c: p for p, cs in children.items() for c in cs}
+    hists = h_histories(kind, pattern, toggles)
+    guard_state = {'done': False, 'failed': []}
+
+    def body(t, V, W):
+        d = t.dag
+        S = [V[f's{i}'] for i in range(n)]
+        conj = {}  # read -> {equation node: first history that produced it}
+        broken = {}  # signature suffix -> (description, history)
+        oracle_cache = {}
+        effects = {}  # (write, read) -> "the read returns the same before and after the write" (vacuity guard)
+
+        def value(part, e, batched):
+            rows = [[V[x] for x in h_names(part, n, e, b)] for b in range(2 if batched else 1)]
+            return from_ids(torch.tensor(rows if batched else rows[0], dtype=torch.int64))
+
+        for hist in hists:
+            last = {}  # read -> (position, batched, element nodes) of its previous occurrence in this history
+
+            def on_read(k, op, got, state, hist=hist, last=last):
+                batched, cur = state
+                B = 2 if batched else 1
+                width = {'bl': 2 * n - 2, 'nh': 2 * n - 1}.get(op)
+                want = ((2,) if batched else ()) + ((width,) if width else ())
+                if tuple(got.shape) != want:
+                    broken.setdefault(f'{H_READ_NAME[op]}-shape',
+                                      (f'operation {k} ({op}) returns shape {tuple(got.shape)}, the parameters in force '
+                                       f'have sample shape {want[:len(want) - (1 if width else 0)]}', hist))
+                    return
+                eqs = conj.setdefault(op, {})
+                if op != 'call' and isinstance(got, SymTensor):
+                    flat = got._ids.reshape(-1).tolist()
+                    if op in last and last[op][0] == k - 2 and hist[k - 1] in H_WRITES[kind] and last[op][1] == batched:
+                        effects.setdefault((hist[k - 1], op), d.and_(*[d.eq(a, b_) for a, b_ in zip(last[op][2], flat)]))
+                    last[op] = (k, batched, flat)
+                for b in range(B):
+                    key = (b, tuple(sorted(cur.items())))
+                    if key not in oracle_cache:
+                        row = {p: [V[x] for x in h_names(p, n, e, b)] for p, e in cur.items()}
+                        oracle_cache[key] = h_oracle(d, n, root, children, kind, S, row)
+                    oh, jac = oracle_cache[key]
+                    gb = got[b] if batched else got
+                    # a result that carries no symbol at all (torch.zeros of the increment transform) is a constant
+                    g = gb._ids.reshape(-1).tolist() if isinstance(gb, SymTensor) else \
+                        [d.const(float(v)) for v in gb.reshape(-1).tolist()]
+                    if op == 'nh':
+                        new = [d.eq(g[v], oh[v]) for v in range(2 * n - 1)]
+                        if kind != 'heights':
+                            new += [d.le(g[c], g[p]) for c, p in parent.items()]
+                    elif op == 'bl':
+                        new = [d.eq(g[c], d.sub(oh[p], oh[c])) for c, p in parent.items()]
+                    else:
+                        new = [d.eq(g[0], jac)]
+                    for e_ in new:
+                        eqs.setdefault(e_, hist)
+
+            try:
+                h_execute(topology, n, kind, hist, cm.var_tensor(V, [f's{i}' for i in range(n)]), value, on_read)
+            except Exception as e:
+                if type(e).__name__ in ('UnsupportedOp', 'EngineError'):
+                    raise
+                broken.setdefault('raises', (f'raises {type(e).__name__}: {e}', hist))
+        goals = []
+        from symtorch.axioms import ground_axioms as _ga
+
+        if effects and not guard_state['done']:
+            # vacuity guard (solver): a write must be able to change what the next read returns, otherwise a stale
+            # cache could not be told from a fresh value (`sat` expected)
+            from symtorch.explore import prove
+
+            guard_state['done'] = True
+            hyps = h_domain(n, kind, parent)(d, V) + list(t.pcs)
+            for (w, r), same in sorted(effects.items()):
+                st, _, _ = prove(d, hyps, same, timeout=20.0, tr=tr, label=f'vacuity guard {w}/{r}')
+                if st != 'refuted':
+                    guard_state['failed'].append((w, r, st))
+        what = {'nh': 'every node_heights read == tips at their sampling times, documented recursion on the parameters '
+                      'in force, parent >= child',
+                'bl': 'every branch_lengths() read == parent height - child height of the parameters in force',
+                'call': 'every model() read == log|det J| of the parameters in force'}
+        for op in H_READS[kind]:
+            eqs = conj.get(op, {})
+            if not eqs:
+                continue
+            node = d.and_(*eqs)
+            goals.append(Goal(f'[{len(eqs)} distinct equations from {len(hists)} histories] {what[op]}', node,
+                              hyps=_ga(d, [node]) if op == 'call' and kind == 'ratio' else [],
+                              signature=f'{kind}:history:{H_READ_NAME[op]}'))
+        for suffix, (desc, hist) in broken.items():
+            goals.append(Goal(f'history {" ; ".join(hist)}: {desc}', d.FALSE, signature=f'{kind}:history:{suffix}'))
+        return goals
+
+    body.state = guard_state
+    return body
+
+
+def h_replay(topology, n, kind, pattern, toggles, vals, focus=None):
+    """every history of the skeleton on plain tensors; returns (separates, detail, history).
+    focus = signature suffix of the refuted goal ('branch_lengths', 'node_heights-shape', 'raises', ...): only that kind
+    of discrepancy counts, so that what is reported is what the solver refuted"""
+    root, children = index_tree(topology, n)
+    parent = {c: p for p, cs in children.items() for c in cs}
+    W = h_variables(n, kind, pattern, toggles)
+    get = lambda name: float(vals.get(name, W.get(name, 0.5)))  # noqa: E731
+    Sf = [get(f's{i}') for i in range(n)]
+    tol = 1e-9
+
+    def value(part, e, batched):
+        rows = [[get(x) for x in h_names(part, n, e, b)] for b in range(2 if batched else 1)]
+        return torch.tensor(rows if batched else rows[0], dtype=torch.float64)
+
+    for hist in h_histories(kind, pattern, toggles):
+        found = []
+
+        def on_read(k, op, got, state):
+            if found:
+                return
+            batched, cur = state
+            width = {'bl': 2 * n - 2, 'nh': 2 * n - 1}.get(op)
+            want = ((2,) if batched else ()) + ((width,) if width else ())
+            if tuple(got.shape) != want:
+                if focus in (None, H_READ_NAME[op] + '-shape'):
+                    found.append(f'operation {k} ({H_READ_NAME[op]}) returns shape {tuple(got.shape)}, expected {want}')
+                return
+            if focus not in (None, H_READ_NAME[op]):
+                return
+            for b in range(2 if batched else 1):
+                row = {p: [get(x) for x in h_names(p, n, e, b)] for p, e in cur.items()}
+                oh, jac = h_oracle_float(n, root, children, kind, Sf, row)
+                g = (got[b] if batched else got).reshape(-1).tolist()
+                sc = max(1.0, max(abs(v) for v in oh.values()))
+                if op == 'nh':
+                    for v in range(2 * n - 1):
+                        if not abs(g[v] - oh[v]) <= tol * sc:
+                            found.append(f'operation {k} (node_heights): node {v} at {g[v]}, the parameters in force '
+                                         f'put it at {oh[v]}' + (' (its sampling time)' if v < n else ''))
+                            return
+                elif op == 'bl':
+                    for c, p in parent.items():
+                        if not abs(g[c] - (oh[p] - oh[c])) <= tol * sc:
+                            found.append(f'operation {k} (branch_lengths): branch {c} = {g[c]} but parent height - child '
+                                         f'height = {oh[p] - oh[c]} for the parameters in force')
+                            return
+                else:
+                    if not abs(g[0] - jac) <= 1e-8 * max(1.0, abs(jac)):
+                        found.append(f'operation {k} (model()): {g[0]} but log|det J| = {jac} for the parameters in force')
+                        return
+
+        try:
+            h_execute(topology, n, kind, hist, torch.tensor(Sf, dtype=torch.float64), value, on_read)
+        except Exception as e:
+            if focus in (None, 'raises') and not found:
+                found.append(f'raises {type(e).__name__}: {e}')
+        if found:
+            return True, f'history [{" ; ".join(hist)}] (after the initial assignment): {found[0]}', list(hist)
+    return False, 'agree', None
+
+
+def history_task(task, tr):
+    from torchtree.core import parameter as tp
+    from torchtree.evolution import tree_model as tm
+
+    _, topology, n, kind, pattern, toggles = task
+    cls = tm.TimeTreeModel if kind == 'heights' else tm.ReparameterizedTimeTreeModel
+    tr.fn(cls.node_heights.fget, cls.branch_lengths, cls.handle_parameter_changed, tm.TimeTreeModel.branch_lengths,
+          tp.Parameter.fire_parameter_changed, tp.CatParameter.handle_parameter_changed)
+    if kind != 'heights':
+        tr.fn(cls.update_node_heights, cls._call, tm.CallableModel.__call__, tp.CatParameter.tensor.fset, tp.CatParameter.update)
+    tr.bounds['histories'] = ('after the initial assignment, ALL sequences of <= 3 (quick) / 4 (thorough) operations over reads '
+                              '{branch_lengths(), node_heights, model()} and writes {ratios, root height, both, both through the '
+                              'CatParameter setter, shifts, internal heights of a plain TimeTreeModel; each also with a switch of '
+                              'the sample shape [] <-> [2]}; every read of every history is checked; fresh symbols per write; '
+                              'trees: all topologies n=3, caterpillar+balanced n=4 (quick) / all n<=4, two n=5 (thorough)')
+    tr.assumptions.add('histories: writes go through the Parameter.tensor / CatParameter.tensor setters (the routes that notify '
+                       'listeners); in-place edits of a tensor behind the model (Parameter.copy_, tensor[...] = v) notify nobody '
+                       'by design and are outside the histories')
+    tr.assumptions.add('histories: ReparameterizedTimeTreeModel.handle_model_changed is not reachable through any write (a tree '
+                       'model holds parameters only, no sub-model ever notifies it); the histories exercise '
+                       'handle_parameter_changed, directly and through CatParameter')
+    tr.assumptions.add('histories: a shape-changing write replaces ratios and root height back to back (no read while their '
+                       'sample shapes disagree)')
+    label = f'history {kind} topology={cm.to_newick(topology)} skeleton={pattern}' + ('' if toggles else ' (same-shape writes only)')
+    body = h_body(topology, n, kind, pattern, toggles, tr, label)
+    parent = {c: p for p, cs in index_tree(topology, n)[1].items() for c in cs}
+    ex = Explorer(h_variables(n, kind, pattern, toggles), h_domain(n, kind, parent), body, tr,
+                  max_regions=200, timeout=30.0, label=label, deadline=time.time() + 900)
+    out = ex.run()
+    for s in out.region_samples[:1]:
+        s['case'] = label
+        tr.sample(s)
+    # verdict policy of symtorch.explore.triage; the replay runs every history of the skeleton on plain tensors
+    extra = {'topology': cm.to_newick(topology), 'n': n, 'kind': kind, 'skeleton': pattern, 'toggles': toggles}
+    sigs = set()
+    from symtorch.explore import _to_float
+
+    for g, model, k, witness in out.failed:
+        vals = {a: _to_float(b) for a, b in model.items() if b is not None}
+        focus = g.signature.split(':')[-1]
+        ok, detail, hist = h_replay(topology, n, kind, pattern, toggles, vals, focus)
+        where = vals
+        if not ok:
+            ok, detail, hist = h_replay(topology, n, kind, pattern, toggles, witness, focus)
+            where = witness
+        if ok:
+            if g.signature not in sigs:
+                sigs.add(g.signature)
+                tr.violation(g.signature, f'{label}: {detail} (at {where})', dict(extra, values=where, history=hist))
+        else:
+            tr.inconc(f'{label}: solver counterexample for "{g.label}" did not reproduce on the real code')
+    for lab, detail, witness in out.unknown:
+        ok, d2, hist = h_replay(topology, n, kind, pattern, toggles, witness, lab.split(':')[-1])
+        if ok:
+            if lab not in sigs:
+                sigs.add(lab)
+                tr.violation(lab, f'{label}: solver undecided but the witness point separates implementation and oracle: {d2}',
+                             dict(extra, values=witness, history=hist))
+        else:
+            tr.inconc(f'{label}: {lab} undecided ({detail})')
+    for w, r, st in body.state['failed']:
+        msg = f'{label}: vacuity guard: write "{w}" does not change what the next {H_READ_NAME[r]} read returns ({st})'
+        if any(sg.endswith(':' + H_READ_NAME[r]) for sg in sigs):
+            tr.notes.append(msg + ' - the stale read reported as violation')
+        else:
+            tr.inconc(msg)
+
+
+def history_tasks(tier):
+    """(topology, n, history length, shape-changing writes in the alphabet)"""
+    if tier == 'quick':
+        trees = [(t, 3, 3, True) for t in cm.rooted_topologies(3)] + [(cm.caterpillar(4), 4, 3, True), (cm.balanced(4), 4, 3, True)]
+    else:
+        trees = [(t, 3, 4, True) for t in cm.rooted_topologies(3)]
+        trees += [(t, 4, 4, True) for t in cm.pick_topologies(4, 'quick', quick_max=6)]
+        trees += [(t, 4, 3, True) for t in cm.rooted_topologies(4) if (t, 4, 4, True) not in trees]
+        trees += [(cm.caterpillar(5), 5, 3, True), (cm.balanced(5), 5, 3, True)]
+    ts = []
+    for topo, n, length, toggles in trees:
+        for kind in ('shift', 'ratio', 'heights'):
+            if kind == 'heights' and topo not in (cm.caterpillar(3), cm.balanced(4)):
+                continue  # plain TimeTreeModel: the cache logic does not involve the topology
+            # increments: every (epoch, sample) in force adds its own max() decisions, the number of path regions is
+            # exponential in the number of symbol rows; the shape-changing writes double the rows
+            tg = toggles and (kind != 'shift' or n == 3 or (n == 4 and length == 3))
+            for pattern in h_patterns(length):
+                ts.append(('history', topo, n, kind, pattern, tg))
+    return ts
+
+
 def tasks_for(tier):
     ts = []
     ns = (3, 4) if tier == 'quick' else (3, 4, 5)
@@ -428,15 +859,19 @@ def tasks_for(tier):
         for move in ('cpu', 'to'):
             ts.append(('device', cm.balanced(4), 4, kind, move))
             ts.append(('device', cm.caterpillar(3), 3, kind, move))
-    return ts
+    return ts + history_tasks(tier)
 
 
 def body(chk):
     chk.explanation = ('symbolic execution of the real node-height transforms and time-tree models; sampling-time '
                        'orderings are path regions enumerated until the solver certifies coverage; tip placement, '
                        'parent>=child, branch lengths, the documented recursion, both inverse identities and the '
-                       'device/dtype clause are proved for all real parameter values on every region')
-    chk.total.assumptions |= {'transform tasks: sampling times are injected as a symbolic tensor after construction; how dates '
+                       'device/dtype clause are proved for all real parameter values on every region; update histories '
+                       '(reads of branch_lengths()/node_heights/model() interleaved with every notifying write route, fresh '
+                       'symbols per write, with and without a change of the sample shape) are enumerated up to a bound and '
+                       'every read is proved equal to the recursion on the parameters in force (a stale cache still mentions '
+                       'the old symbols), with a solver vacuity guard per write')
+    chk.total.assumptions |= {'transform and history tasks: sampling times are injected as a symbolic tensor after construction; how dates '
                               'become sampling times is decided by the dates sub-check (CrossHair) for symbolic dates',
                               'cuda() is exercised through cpu()/to(dtype): no GPU in the sandbox'}
     pmap(run_task, [('dates', chk.tier)] + list(tasks_for(chk.tier)), chk.total)
